@@ -165,6 +165,18 @@ def check_c12(prog, rep, tier, cfg):
                     rep.check(ok, R, "append:%s:%s" % (short(bd.npath).split("::")[-1], names), "try_rewrite_string appends text of foreign origin: %s" % sorted(map(str, ao)), where=c.where(),
                               instance={"append": c.callee.split("::")[-1], "origin": names})
         rep.floor(R, "appends into the rewritten literal", len(srcs), 5)
+        # closed set of operations that take the literal under construction mutably
+        allowed_mut = {"alloc::string::String::push_str", "alloc::string::String::push"}
+        nm = 0
+        for bd in bodies:
+            for c in bd.calls():
+                for a in c.args:
+                    if a["k"] in ("copy", "move") and not a["place"]["p"] and bd.locals[a["place"]["l"]]["ty"].replace("std::string::", "").replace("alloc::string::", "") in ("&mut String",):
+                        nm += 1
+                        okm = c.callee in allowed_mut or (c.callee or "").endswith("Extend::extend") or (c.callee or "").endswith("Extend<&'a str>>::extend") or "as core::iter::traits::collect::Extend" in (c.callee or "")
+                        rep.check(okm, R, "mutator:%s" % (c.callee or "?").split("::")[-1], "the literal under construction is handed mutably to %s in %s — only push/push_str/extend of reviewed origin may build it" % (c.callee, short(bd.npath)), where=c.where(),
+                                  instance={"mutator": (c.callee or "?").split("::")[-1], "in": short(bd.npath).split("::")[-1]})
+        rep.floor(R, "mutable uses of the literal under construction", nm, 5)
         made = [c for c in tb.calls() if (c.callee or "") == "alloc::string::String::with_capacity"]
         rep.check(len(made) == 1, R, "fresh-string", "the rewritten literal is not built in a fresh String")
         # counters used are this literal's own (parameter `indent`)
